@@ -6,6 +6,8 @@ import JunoModel.C19.ProofsSched
 import JunoModel.C19.ProofsProc
 import JunoModel.C19.ProofsLive
 import JunoModel.C19.ProofsTasks
+import JunoModel.C19.ProofsHash
+import JunoModel.C19.ProofsCache
 /-!
 C19 — property theorems (statements only; the proofs are one-line calls into `Proofs*.lean`).
 
@@ -110,6 +112,54 @@ theorem merkle_root_binds_leaves [DecidableEq H] (f : HashFns H) (hI : Ideal f) 
     (hlen : l1.length = l2.length) (hne : l1 ≠ [])
     (h : (merkleNew f l1).1 = (merkleNew f l2).1) : l1 = l2 :=
   merkleNew_root_inj f hI l1 l2 hlen hne h
+
+/-! ## 2b. What is hashed and what is signed (`merkleLeafHash`, `merkleNodeHash`, `buildSignPayload`) -/
+
+/-- `leaf_hash_preimage` — `merkleLeafHash(data)` hashes exactly `"<leaf>" ‖ data ‖ "</leaf>"`, for
+EVERY length of `data`: the buffer it allocates has room for each of its three `copy` calls (Go's
+`copy` truncates silently otherwise — a buffer too short for some lengths would drop the tail of the
+leaf from the hash). Likewise `merkleNodeHash` hashes the 105 bytes
+`"<node><left>" ‖ left ‖ "</left><right>" ‖ right ‖ "</right></node>"`. -/
+theorem leaf_hash_preimage (data l r : Bytes) (hl : l.length = 32) (hr : r.length = 32) :
+    leafPreimageGo data = leafOpen ++ data ++ leafClose ∧
+    (leafPreimageGo data).length = data.length + 13 ∧
+    nodePreimageGo l r = nodeOpen ++ l ++ nodeMid ++ r ++ nodeClose :=
+  ⟨leafPreimageGo_eq data, leafPreimageGo_length data, nodePreimageGo_eq l r hl hr⟩
+
+/-- `merkle_ideal_or_sha256_collision` — the idealisation `Ideal` every soundness theorem assumes of
+the two tagged hashes is, for the hashes the code computes over ANY function `sha` on byte strings,
+implied by collision-freeness of `sha` alone: the byte layouts are injective and a leaf preimage is
+never a node preimage. Stated without an unsatisfiable hypothesis: either `Ideal` holds or there is
+an explicit collision of `sha`. -/
+theorem merkle_ideal_or_sha256_collision (sha : Bytes → Digest) :
+    Ideal (taggedFns sha) ∨ ∃ x y, x ≠ y ∧ sha x = sha y :=
+  tagged_ideal_or_collision sha
+
+/-- `merkle_sound` for the hashes of merkle.go over `sha`: a proof that verifies pins down leaf, path
+and depth — or exhibits a collision of `sha`. -/
+theorem merkle_sound_or_sha256_collision (sha : Bytes → Digest) (leaves : List Bytes)
+    (hne : leaves ≠ []) (proof : List Digest) (leaf : Bytes) (idx : Nat)
+    (hv : verify (taggedFns sha) proof (merkleNew (taggedFns sha) leaves).1 leaf idx = true) :
+    (leaf = paddedLeaf leaves (idx % nextPow2 leaves.length) ∧
+     proof = proofLoop (taggedFns sha) (bottomLayer (taggedFns sha) leaves) (idx % nextPow2 leaves.length) ∧
+     2 ^ proof.length = nextPow2 leaves.length) ∨ ∃ x y, x ≠ y ∧ sha x = sha y := by
+  cases tagged_ideal_or_collision sha with
+  | inl hI => exact Or.inl (merkleNew_sound (taggedFns sha) hI leaves hne proof leaf idx hv)
+  | inr hc => exact Or.inr hc
+
+/-- `signed_payload_binds_fields` — "a unit whose signature, committee … does not match is rejected"
+at the byte level: `buildSignPayload` fills its 95-byte array exactly
+(`"<propeller>" ‖ root ‖ committee ‖ nonce (8 bytes, big endian) ‖ "<propeller/>"`), and two payloads
+are equal only if root, committee id and nonce are: a signature over the bytes is a signature over
+the triple `Payload` the validator theorems speak about. -/
+theorem signed_payload_binds_fields (r1 c1 r2 c2 : Bytes) (n1 n2 : Nat)
+    (hr1 : r1.length = 32) (hc1 : c1.length = 32) (hr2 : r2.length = 32) (hc2 : c2.length = 32)
+    (hn1 : n1 < 2 ^ 64) (hn2 : n2 < 2 ^ 64) :
+    signPayloadGo r1 c1 n1 = sigPrefix ++ r1 ++ c1 ++ be64 n1 ++ sigSuffix ∧
+    (signPayloadGo r1 c1 n1).length = 95 ∧
+    (signPayloadGo r1 c1 n1 = signPayloadGo r2 c2 n2 → r1 = r2 ∧ c1 = c2 ∧ n1 = n2) :=
+  ⟨signPayloadGo_eq r1 c1 n1 hr1 hc1, signPayloadGo_length r1 c1 n1 hr1 hc1,
+   signPayloadGo_inj r1 c1 r2 c2 n1 n2 hr1 hc1 hr2 hc2 hn1 hn2⟩
 
 /-! ## 3. Reconstruction: `reconstruct_any_subset` -/
 
@@ -344,6 +394,27 @@ theorem origin_accepts_designated_sender (s : Sched) (pub : Bytes) (i : Nat) (se
     s.validateOrigin sender pub i = .ok () :=
   origin_accepts_legit s pub i sender hne h
 
+/-- `broadcast_targets_are_designated` — the publisher side of the assignment: `BroadcastTargets()`
+has one entry per shard and entry `i` is `PeerForShardIndex(self, i)`, the peer every receiver accepts
+shard `i` of this publisher from. -/
+theorem broadcast_targets_are_designated (id : Bytes) (nodes : List Bytes) (s : Sched)
+    (hs : newScheduler id nodes = .ok s) :
+    (broadcastTargetsGo s.peers s.localIdx).length = s.total ∧
+    ∀ i, i < s.total → ∃ q, (broadcastTargetsGo s.peers s.localIdx)[i]? = some q ∧
+      s.peerForShard s.localId i = .ok q :=
+  broadcastTargetsGo_spec id nodes s hs
+
+/-- `broadcast_peers_exact` — `broadcastUnit` (processor.go) allocates `N-2` slots and fills one per
+member that is neither the publisher nor the local peer: for every scheduler `NewScheduler` makes and
+every publisher a subprocessor can exist for, that is exactly `N-2` members — the slice is never
+overrun (the index-out-of-range the code's `todo` worries about cannot happen), no slot stays empty,
+nobody is listed twice, neither the publisher nor the local peer is listed. -/
+theorem broadcast_peers_exact (id : Bytes) (nodes : List Bytes) (s : Sched)
+    (hs : newScheduler id nodes = .ok s) (pub : Bytes) (li : Nat) (h : s.shardIndexFor pub = .ok li) :
+    ∃ l, broadcastPeersGo s.peers s.localId pub = some l ∧ l.length = s.peers.length - 2 ∧ l.Nodup ∧
+      ∀ q, q ∈ l ↔ (q ∈ s.peers ∧ q ≠ pub ∧ q ≠ s.localId) :=
+  broadcastPeersGo_spec id nodes s hs pub li h
+
 /-! ## 8. The wire form of a unit (UnitFromProto / ToProto) -/
 
 /-- Round trip: `UnitFromProto(unit.ToProto()) = unit` for every well-formed unit (`WireOk`: at
@@ -549,6 +620,46 @@ theorem task_accounting_is_transparent [DecidableEq H] (b : Bounds) (cfg : Cfg) 
     (tprocStep b cfg pc f rs sg s tp u sender).1.core = (procStep cfg pc f rs sg s tp.core u sender).1 :=
   tprocStep_eq_procStep b cfg pc f rs sg s tp u sender hfree
 
+/-! ## 9c. The finalized cache (`timecache.TimeCache`) -/
+
+/-- `finalized_cache_is_ttl_set` — `Processor.finalized`, which the rest of the model treats as a set,
+IS one as long as nothing expires, and forgets exactly what has expired: a `TimeCache` made by
+`New(size, ttl)` (any initial size ≥ 1) answers every `Get` of every run — any number of `Add`s and
+`Get`s, a clock that does not go backwards, a key added only when it is not live (the processor adds a
+key when the subprocessor it created after a negative `Get` ends) — with "some `Add` of this key has
+not expired yet". The ring buffer's wrap-around, `removeExpired` and both branches of `regrowth`
+(contiguous and wrapped, doubling and +20 %) never lose, duplicate or resurrect an entry. -/
+theorem finalized_cache_is_ttl_set {K : Type} [DecidableEq K] (size ttl : Nat) (hsize : 1 ≤ size)
+    (httl : 0 < ttl) (ops : List (TOp K)) (hw : WellFormed ttl 0 [] ops) :
+    ((TCache.new size ttl : TCache K).run ops).2 = specRun ttl [] ops :=
+  cache_run_spec size ttl hsize httl ops hw
+
+/-- `finalized_cache_is_a_set_before_expiry` — the link to the processor model, whose `finalized` is a
+plain set: in every well-formed run whose operations all happen before the first possible expiry
+(`time < ttl`), `Get` answers exactly "the key was added". -/
+theorem finalized_cache_is_a_set_before_expiry {K : Type} [DecidableEq K] (size ttl : Nat) (hsize : 1 ≤ size)
+    (ops : List (TOp K)) (hw : WellFormed ttl 0 [] ops) (hearly : ∀ op ∈ ops, op.time < ttl) :
+    ((TCache.new size ttl : TCache K).run ops).2 = setRun [] ops := by
+  cases ops with
+  | nil => rfl
+  | cons op rest =>
+    have httl : 0 < ttl := Nat.lt_of_le_of_lt (Nat.zero_le _) (hearly op (List.mem_cons_self ..))
+    rw [cache_run_spec size ttl hsize httl _ hw]
+    exact specRun_eq_setRun ttl _ [] (by intro p hp; cases hp) hearly
+
+/-- One operation in any represented state (the invariant `Repr tc q`: map, ring, `start`, `end`,
+`size` represent the queue `q` of (key, expiry) in insertion order): `removeExpired` drops the
+expired prefix, `regrowth` keeps the queue and makes room, `Add` appends, `Get` looks up. -/
+theorem finalized_cache_operations {K : Type} [DecidableEq K] (tc : TCache K) (q : List (K × Nat))
+    (h : Repr tc q) (now : Nat) (k : K) :
+    Repr (tc.removeExpired now) (q.dropWhile (fun p => decide (p.2 ≤ now))) ∧
+    (tc.almostFull = true → Repr tc.regrow q ∧ tc.regrow.almostFull = false) ∧
+    ((∀ e, (k, e) ∈ q → e ≤ now) → (∀ p ∈ q, p.2 ≤ now + tc.ttl) →
+      Repr (tc.add now k) (q.filter (fun p => decide (now < p.2)) ++ [(k, now + tc.ttl)])) ∧
+    ((tc.get now k).2 = true ↔ ∃ e, (k, e) ∈ q ∧ now < e) :=
+  ⟨repr_removeExpired tc q now h, fun hf => ⟨(repr_regrow tc q h hf).1, (repr_regrow tc q h hf).2.1⟩,
+   fun h1 h2 => (repr_add tc q now k h h1 h2).1, (repr_get tc q now k h).1⟩
+
 /-! ## 10. Regression witnesses of repaired defects (`*_before_fix_<commit>`)
 
 True statements about flag values the code in /repo no longer has; kept so that the defect stays
@@ -729,6 +840,29 @@ example : Cfg.pinned.rootFromPresent = false ∧ Cfg.pinned.shardingLeafProto = 
 -- a value on which unpad succeeds, one on which it errs
 example : unpad false [3, 1, 2, 3, 0, 0] = .ok [1, 2, 3] ∧ unpad true [9, 1] = .err .length ∧
     unpad true [0x80] = .err .varint := by decide
+
+-- the bytes hashed for a two-byte leaf; the 105 bytes of a node; the 95 signed bytes
+example : leafPreimageGo [1, 2] = [60, 108, 101, 97, 102, 62, 1, 2, 60, 47, 108, 101, 97, 102, 62] := by decide
+example : (nodePreimageGo (List.replicate 32 7) (List.replicate 32 9)).length = 105 := by
+  rw [nodePreimageGo_eq _ _ (by simp) (by simp)]; simp [nodeOpen, nodeMid, nodeClose]
+example : be64 258 = [0, 0, 0, 0, 0, 0, 1, 2] ∧ be64 (2 ^ 64 - 1) = List.replicate 8 255 := by decide
+example : (signPayloadGo (List.replicate 32 1) (List.replicate 32 2) 258).length = 95 :=
+  signPayloadGo_length _ _ _ (by simp) (by simp)
+-- a `sha` with a collision (the right disjunct of `merkle_ideal_or_sha256_collision` is inhabited)
+example : ∃ x y : Bytes, x ≠ y ∧ (fun _ => (⟨List.replicate 32 0, by simp⟩ : Digest)) x =
+    (fun _ => (⟨List.replicate 32 0, by simp⟩ : Digest)) y := ⟨[], [0], by decide, rfl⟩
+-- committee of 4, receiver [1], publisher [2]: the local unit goes to [3] and [4]
+example : broadcastPeersGo [[1], [2], [3], [4]] [1] [2] = some [[3], [4]] ∧
+    broadcastTargetsGo [[1], [2], [3], [4]] 0 = [[2], [3], [4]] := by decide
+
+-- the finalized cache: a cache of ONE usable slot (size 2) that must grow, wrap and expire: keys 7 and
+-- 8 added at time 0 and 1 (ttl 5), 7 expired at time 5, 8 not; 7 added again at 6
+example : ((TCache.new 1 5 : TCache Nat).run
+      [.add 0 7, .add 1 8, .get 4 7, .get 5 7, .get 5 8, .add 6 7, .get 7 7, .get 7 8, .get 7 9]).2 =
+      [true, false, true, true, false, false] := by
+  rw [finalized_cache_is_ttl_set 1 5 (by decide) (by decide) _ (by simp [WellFormed])]
+  decide
+example : Repr (TCache.new 1 5 : TCache Nat) [] := repr_new 1 5 (by decide)
 
 /-! ### Non-vacuity of the processor theorems: a run that builds, a run that panics -/
 
